@@ -127,7 +127,8 @@ REG.add(Contract(f"{NG}._flatten_graph_node", module=M_NX, kind="method", status
                  note="split('.') / join: not brought under contract; the truncation is checked by the bounded C09 stand-in (quotient graph for every k)"))
 REG.add(Contract(f"{NG}._create_node", module=M_NX, kind="method", params=dict(self=NG, node="Node"), returns="None", modifies=["self"],
                  ensures=["forall(Node, lambda x: (x in self._graph.nodes) == ((x in old(self)._graph.nodes) or x == flat(old(self)._level_limit, node)))",
-                          "self._graph.edges == old(self)._graph.edges", "self._graph.inh == old(self)._graph.inh", "self._level_limit == old(self)._level_limit"],
+                          "self._graph.edges == old(self)._graph.edges", "self._graph.inh == old(self)._graph.inh", "self._level_limit == old(self)._level_limit",
+                          "self._all_modules == old(self)._all_modules", "self._imports == old(self)._imports"],
                  properties=["C04", "C09"]))
 REG.macro("ce_adds", ["g", "a", "b", "inherits"],
           "a != b and (a in g.nodes) and (b in g.nodes) and not (((a, b) in g.edges) and (((a, b) in g.inh) == inherits))")
@@ -135,7 +136,7 @@ REG.add(Contract(f"{NG}._create_edge", module=M_NX, kind="method", params=dict(s
                  modifies=["self"], defaults=dict(inherits="False"),
                  ensures=[
                      # C02: an edge is only created between two KNOWN modules; C09: after flattening, self edges are dropped; never a new node
-                     "self._graph.nodes == old(self)._graph.nodes", "self._level_limit == old(self)._level_limit",
+                     "self._graph.nodes == old(self)._graph.nodes", "self._level_limit == old(self)._level_limit", "self._all_modules == old(self)._all_modules", "self._imports == old(self)._imports",
                      "forall(Node, Node, lambda a, b: ((a, b) in self._graph.edges) == (((a, b) in old(self)._graph.edges) or "
                      "(a == flat(old(self)._level_limit, node_start) and b == flat(old(self)._level_limit, node_end) and ce_adds(old(self)._graph, a, b, inherits))))",
                      "forall(Node, Node, lambda a, b: ((a, b) in self._graph.inh) == (inherits if (a == flat(old(self)._level_limit, node_start) and b == flat(old(self)._level_limit, node_end) "
